@@ -631,7 +631,7 @@ func c39driver(ctx *verifhlib.Ctx) {
 		secs = append(secs, p-1, p, p+1, -p+1, -p, -p-1)
 	}
 	secs = append(secs, 0, math.MaxInt64, math.MaxInt64-1, math.MinInt64, math.MinInt64+1,
-		time.Now().Unix(), 1600000000, -62135596800, 253402300799)
+		1789000000, 1600000000, -62135596800, 253402300799)
 	latTags := func(s int64) []string {
 		if s >= 1<<55 || s < -(1<<55) {
 			return []string{"lat-out-of-range"}
